@@ -225,6 +225,49 @@ def remote_request():
         sx.reach("rtr-suppressed")
 
 
+def remote_request_from_od():
+    """the RTR / valid flags come from the COB-ID entry (bit 30 / bit 31) when the configuration is read"""
+    rig = Rig()
+    cm = rig.consumer.tpdo[1]
+    od = rig.consumer.object_dictionary
+    word = sx.fresh_int("cobword", 0, 0xFFFFFFFF)
+    sx.assume(((word & 0x1FFFFFFF) >= 0x181) & ((word & 0x1FFFFFFF) <= 0x57F))
+    od[0x1800][1].value = word
+    od[0x1800][2].default = 1
+    od[0x1A00][0].default = 1
+    od[0x1A00][1].default = (C.TYPE_INDEX[0x05] << 16) | 8
+    cm.read(from_od=True)
+    n0 = len(rig.frames)
+    cm.remote_request()
+    new = rig.frames[n0:]
+    allowed = ((word & (1 << 31)) == 0) & ((word & (1 << 30)) == 0)
+    if new:
+        sx.prove(allowed, "remote request sent although the COB-ID entry forbids RTR or the PDO is invalid",
+                 "C15/rtr-od/not-allowed")
+        sx.prove(len(new) == 1 and new[0][3] is True and (new[0][1] == (word & 0x1FFFFFFF)) is not False,
+                 "remote frame shape", "C15/rtr-od/frame")
+        sx.reach("rtr-od-sent")
+    else:
+        sx.prove(sx.not_(allowed), "remote request suppressed although allowed", "C15/rtr-od/suppressed")
+        sx.reach("rtr-od-suppressed")
+
+
+def collide_disabled():
+    """a disabled map sharing the COB-ID of an enabled one must not take the enabled map's subscription away"""
+    rig = Rig()
+    c1 = sx.fresh_int("c1", 0x181, 0x57F)
+    m1, m2 = rig.consumer.tpdo[1], rig.consumer.tpdo[2]
+    _configure(m1, "aligned", c1)
+    _configure(m2, "aligned", c1)
+    m2.enabled = False
+    m2.subscribe()               # what read()/save() do after a reconfiguration
+    data = sx.fresh_bytes("d", 8)
+    rig.nb.notify(c1, data, 9)
+    sx.prove(sx.eq_bytes(sx.mkbytes(sx.items(m1.data)), data) and m1.timestamp == 9,
+             "the enabled map no longer receives after a disabled sibling (re)subscribed", "C15/collide/disabled-sibling")
+    sx.reach("collide-disabled")
+
+
 def sequence(k, s0=None, s1=None):
     """steps: set+transmit / foreign frame / reconfigure COB-ID on both sides"""
     rig = Rig()
@@ -281,6 +324,8 @@ def jobs(tier):
         for prior in (0, 1):
             out.append(dict(func="wait", params=dict(deliver=d, prior=prior)))
     out.append(dict(func="remote_request", params={}))
+    out.append(dict(func="remote_request_from_od", params={}))
+    out.append(dict(func="collide_disabled", params={}))
     for prior in (0, 1):
         out.append(dict(func="wait_threads", params=dict(prior=prior)))
     for k in (1, 2):
@@ -310,7 +355,7 @@ META = dict(
     assumptions=["producer and consumer are configured with the same mapping by the harness"],
     stubs=["struct", "threading.Condition", "Network.send_message replaced by a loopback", "logging"],
     required_reach=["roundtrip", "collide-hit", "collide-miss", "collide-both", "wait-hit", "wait-timeout", "threads-woken", "threads-timeout", "rtr-sent",
-                    "rtr-suppressed", "seq-transmit", "seq-foreign", "seq-reconfigure", "sequence"],
+                    "rtr-suppressed", "rtr-od-sent", "rtr-od-suppressed", "collide-disabled", "seq-transmit", "seq-foreign", "seq-reconfigure", "sequence"],
     limits=dict(quick=dict(max_decisions=20000), thorough=dict(max_decisions=50000)),
     validate_every=dict(quick=5, thorough=31),
     max_validate=dict(quick=50, thorough=50),
